@@ -25,6 +25,14 @@ theorem ch11_accepted_payload_exact (t : Model.Ch11.State) (buf : Bytes)
 example : (Model.Ch11.unpack Model.Ch11.fresh (List.replicate 23 0)).2 = .error .struct := by decide
 example : (Model.Ch11.unpack Model.Ch11.fresh (List.replicate 24 0)).2 = .ok () := by decide
 
+/-- review witnesses with a non-zero header: secondary-header flag set (byte 14 = 0x84: bit 7, time format 01) and the 12
+    secondary bytes present → accepted, payload = the 4 bytes after byte 36; only 11 of them → rejected; bit 7 with time
+    format 00 (0x80) → rejected -/
+example : (Model.Ch11.unpack Model.Ch11.fresh ([0x25,0xEB, 1,0, 40,0,0,0, 4,0,0,0, 6, 7, 0x84, 0x19, 1,2,3,4,5,6, 0,0] ++ List.replicate 12 5 ++ [1,2,3,4])).2 = .ok () := by decide
+example : (Model.Ch11.unpack Model.Ch11.fresh ([0x25,0xEB, 1,0, 40,0,0,0, 4,0,0,0, 6, 7, 0x84, 0x19, 1,2,3,4,5,6, 0,0] ++ List.replicate 12 5 ++ [1,2,3,4])).1.payload = [1,2,3,4] := by decide
+example : (Model.Ch11.unpack Model.Ch11.fresh ([0x25,0xEB, 1,0, 40,0,0,0, 4,0,0,0, 6, 7, 0x84, 0x19, 1,2,3,4,5,6, 0,0] ++ List.replicate 11 5)).2 ≠ .ok () := by decide
+example : (Model.Ch11.unpack Model.Ch11.fresh ([0x25,0xEB, 1,0, 40,0,0,0, 4,0,0,0, 6, 7, 0x80, 0x19, 1,2,3,4,5,6, 0,0] ++ List.replicate 12 5)).2 ≠ .ok () := by decide
+
 /-- Chapter 10 UDP: accepted ⇔ at least 4 bytes and, by the low nibble of byte 0:
     1 → the high nibble (type) is not 1 (segmented format 1 is not supported);
     3 → source-id length ≤ 4 and at least 8 bytes;  anything else (format 2) → at least 12 bytes -/
@@ -35,5 +43,17 @@ theorem udp_accepts_iff (t : Model.Ch10UDP.State) (buf : Bytes) :
        (Lemmas.Ch10UDP.byte0 buf % 16 = 3 ∧ Lemmas.Ch10UDP.byte0 buf / 16 ≤ 4 ∧ 8 ≤ buf.length) ∨
        (Lemmas.Ch10UDP.byte0 buf % 16 ≠ 1 ∧ Lemmas.Ch10UDP.byte0 buf % 16 ≠ 3 ∧ 12 ≤ buf.length)) :=
   Lemmas.Ch10UDP.udp_accepts_iff t buf
+
+/-- review witnesses: format 1 type 0 on 6 bytes accepted, type 1 rejected; format 3 with source-id length 2 on 9 bytes
+    accepted, on 7 bytes rejected, with source-id length 5 rejected; format 2 on 13 bytes accepted, on 11 rejected;
+    3 bytes rejected -/
+example : (Model.Ch10UDP.unpack Model.Ch10UDP.fresh [0x01, 7, 0, 0, 9, 9]).2 = .ok () := by decide
+example : (Model.Ch10UDP.unpack Model.Ch10UDP.fresh [0x11, 7, 0, 0, 9, 9]).2 ≠ .ok () := by decide
+example : (Model.Ch10UDP.unpack Model.Ch10UDP.fresh [0x23, 7, 0, 0, 1, 2, 3, 4, 9]).2 = .ok () := by decide
+example : (Model.Ch10UDP.unpack Model.Ch10UDP.fresh [0x23, 7, 0, 0, 1, 2, 3]).2 ≠ .ok () := by decide
+example : (Model.Ch10UDP.unpack Model.Ch10UDP.fresh [0x53, 7, 0, 0, 1, 2, 3, 4, 9]).2 ≠ .ok () := by decide
+example : (Model.Ch10UDP.unpack Model.Ch10UDP.fresh [0x02, 7, 0, 0, 1, 2, 3, 4, 5, 6, 7, 8, 9]).2 = .ok () := by decide
+example : (Model.Ch10UDP.unpack Model.Ch10UDP.fresh [0x02, 7, 0, 0, 1, 2, 3, 4, 5, 6, 7]).2 ≠ .ok () := by decide
+example : (Model.Ch10UDP.unpack Model.Ch10UDP.fresh [0x01, 7, 0]).2 ≠ .ok () := by decide
 
 end Acra.Props.C09
